@@ -138,7 +138,8 @@ class LevyCopulaModel(Model):
         return self.blumenthal_getoor_index() == 0  # FIXME: not mathematically true
 
     def jump_of_finite_variation(self) -> bool:
-        return self.blumenthal_getoor_index() <= 1
+        # a Blumenthal-Getoor index of exactly 1 does not decide it (CGMY with y = 1 has infinite variation): ask the margins
+        return all(model.jump_of_finite_variation() for model in self.models)
 
     def finite_first_moment(self):
         return all(model.finite_first_moment() for model in self.models)
